@@ -209,7 +209,8 @@ def _havoc(E, spec, s, st, fx, with_target):
     base = st.fork()
     for n in assigned:
         if n not in decl:
-            base.env[n] = UnboundV("assigned in loop at %s:%d without declared kind" % (fx.qualname, s.lineno))
+            flag = _flag_like(n, s, st.env.get(n))
+            base.env[n] = flag if flag is not None else UnboundV("assigned in loop at %s:%d without declared kind" % (fx.qualname, s.lineno))
     states = [base]
     for n, mk in decl.items():
         nxt = []
@@ -227,6 +228,23 @@ def _havoc(E, spec, s, st, fx, with_target):
             nxt.extend(spec.havoc(E, c))
         states = nxt
     return states
+
+
+def _flag_like(name, loop, before):
+    """An undeclared local that holds a bool / int before the loop and is only ever assigned constants of that same type
+    inside it (a flag or counter-like marker) is havocked to an arbitrary value of that type - a sound over-approximation."""
+    if not isinstance(before, (BoolV, IntV)):
+        return None
+    want = bool if isinstance(before, BoolV) else int
+    for n in ast.walk(loop):
+        tgt = None
+        if isinstance(n, ast.Assign) and any(isinstance(t, ast.Name) and t.id == name for t in n.targets):
+            tgt = n.value
+        elif isinstance(n, (ast.AugAssign, ast.For)) and any(isinstance(x, ast.Name) and x.id == name for x in ast.walk(n.target)):
+            return None
+        if tgt is not None and not (isinstance(tgt, ast.Constant) and type(tgt.value) is want):
+            return None
+    return BoolV(z3.Bool(fresh_name(name))) if want is bool else IntV(z3.Int(fresh_name(name)))
 
 
 def exec_while(E, s, st, fx):
